@@ -148,3 +148,9 @@ mut('C20', 'lagged-in-table', [(IMG, "        for variable_name, name_of_var in 
 mut('C20', 'csv-time-axis-last', [('base_solver.py', "            varlist = ['t', ] + varlist", "            varlist = varlist + ['t', ]")], ['time_axis_first'])
 mut('C20', 'csv-drops-time-axis', [('base_solver.py', "            varlist.remove('t')\n            varlist = ['t', ] + varlist", "            varlist.remove('t')")], ['header_has_every_column_slot', 'no_variable_dropped'])
 ben('C20', 'csv-rename-local', [('base_solver.py', "        out = '\\t'.join(varlist) + '\\n'\n        for i in range(0, len(getattr(self, varlist[0]))):", "        out = '\\t'.join(varlist) + '\\n'\n        for i in range(len(getattr(self, varlist[0]))):")])
+
+# ---- C09 ---------------------------------------------------------------------------------------------
+mut('C09', 'parameter-always-short-form', [('utils.py', "    if float(txt) != float(value):\n        txt = repr(float(value))\n    return txt", "    return txt")], ['reads_back_as_the_value'])
+mut('C09', 'consumption-out-of-pretax-income', [(SD, "                         'AlphaIncome * AfterTax + AlphaFin * LAG_F')", "                         'AlphaIncome * INC + AlphaFin * LAG_F')")], ['consumption_function'])
+mut('C09', 'tax-on-after-tax-income', [(SD, "                term = '%s * %s' % (tax_name_used, s.GetVariableName('INC'))", "                term = '%s * %s' % (tax_name_used, s.GetVariableName('AfterTax'))")], ['textbook'], deductive_only=False)
+ben('C09', 'format-helper-compare-floats', [('utils.py', "    if float(txt) != float(value):", "    if not (float(txt) == float(value)):")])
